@@ -166,6 +166,16 @@ VARIANTS = [
     dict(name="total_write marks the total as tracked without refilling it", kind="break", file=CORE,
          old="                self._write += self.get_size(node)\n\n            self._track_write = True\n\n        return", new="                self._write += self.get_size(node)\n\n        self._track_write = True\n\n        return",
          expect=("C04-TRACK", "recompute:_write")),
+    dict(name="remove_ind multiplies the step's flops by d", kind="break", file=CORE,
+         old="                new_flops = old_flops // d", new="                new_flops = old_flops * d", expect=("C04-ARITH", "flops")),
+    dict(name="remove_ind moves the write total the wrong way", kind="break", file=CORE,
+         old="                    tree._write += new_size - old_size", new="                    tree._write += old_size - new_size", expect=("C04-ARITH", "size")),
+    dict(name="remove_ind rescales the size also when the index is summed at the step", kind="break", file=CORE,
+         old="                if ind in legs:\n                    node_info[\"legs\"] = legs_without(legs, ind)", new="                if ind in involved:\n                    node_info[\"legs\"] = legs_without(legs, ind)", expect=("C04-ARITH", "size")),
+    dict(name="twin: remove_ind writes the flops delta as a subtraction", kind="twin", file=CORE,
+         old="                tree._flops += new_flops - old_flops", new="                tree._flops -= old_flops - new_flops"),
+    dict(name="twin: remove_ind uses an augmented multiplication for the slice count", kind="twin", file=CORE,
+         old="            tree.multiplicity = tree.multiplicity * d", new="            tree.multiplicity *= d"),
 ]
 for v in VARIANTS:
     v.pop("edits", None) if v.get("edits") is None else None
